@@ -14,6 +14,8 @@ type Analyzer struct {
 	P          *Prog
 	singletons map[string]bool // type name (pkg.Type) -> treated as one live instance
 	effectFree map[*ssa.Function]bool
+	lwCache    map[*ssa.Function]map[*ssa.BasicBlock]map[string]bool
+	noSnapshot bool
 	inlinable  map[*ssa.Function]int // 0 unknown, 1 yes, 2 no
 	loops      map[*ssa.Function]*LoopInfo
 	implCache  map[string][]*ssa.Function
@@ -725,6 +727,8 @@ type FCtx struct {
 	DeadEdge map[[2]*ssa.BasicBlock]bool
 	// PhiChoice: on one enumerated path, the incoming value each phi takes
 	PhiChoice map[*ssa.Phi]ssa.Value
+	// snap: per defining instruction, the (frozen value, live read) pairs of its snapshot term
+	snap map[ssa.Instruction][][2]*Term
 }
 
 func (a *Analyzer) NewFCtx(fn *ssa.Function, env map[ssa.Value]*Term, depth int) *FCtx {
@@ -774,8 +778,133 @@ func (c *FCtx) Term(v ssa.Value) *Term {
 	c.busy[v] = true
 	t := c.term(v)
 	delete(c.busy, v)
+	t = c.snapshot(v, t)
 	c.cache[v] = t
 	return t
+}
+
+// snapshot: the value of a call or load is fixed when it executes. When something that may run later in the same
+// function writes a location the term reads, the term is frozen (pre:<def>(..)); the dataflow adds the equality
+// between the frozen value and the live read at the definition and drops it at the first such write, so a stale
+// snapshot is never mistaken for the current state.
+func (c *FCtx) snapshot(v ssa.Value, t *Term) *Term {
+	if c.A.writes == nil || c.A.noSnapshot {
+		return t
+	}
+	var in ssa.Instruction
+	switch x := v.(type) {
+	case *ssa.Call:
+		in = x
+	default:
+		return t
+	}
+	if in.Block() == nil || in.Parent() != c.Fn {
+		return t
+	}
+	switch t.Op {
+	case "pre", "this", "const", "phi", "unk", "make", "cell":
+		return t
+	}
+	reads := map[string]bool{}
+	c.A.termReads(t, reads)
+	if len(reads) == 0 {
+		return t
+	}
+	w := c.A.laterWrites(in)
+	hit := false
+	for l := range reads {
+		if w[l] {
+			hit = true
+		}
+	}
+	if !hit {
+		return t
+	}
+	id := funcID(c.Fn) + "#" + v.Name() + "!snap"
+	ft := c.freezeTerm(t, w, id)
+	if ft.Key() == t.Key() {
+		return t
+	}
+	if c.snap == nil {
+		c.snap = map[ssa.Instruction][][2]*Term{}
+	}
+	var pairs [][2]*Term
+	ft.Walk(func(x *Term) {
+		if x.Op == "pre" && x.Name == id && len(x.Args) == 1 {
+			pairs = append(pairs, [2]*Term{x, x.Args[0]})
+		}
+	})
+	c.snap[in] = pairs
+	return ft
+}
+
+// laterWrites: the locations that instructions reachable after `in` (in its function) may write.
+func (a *Analyzer) laterWrites(in ssa.Instruction) map[string]bool {
+	fn := in.Parent()
+	if a.lwCache == nil {
+		a.lwCache = map[*ssa.Function]map[*ssa.BasicBlock]map[string]bool{}
+	}
+	reach, ok := a.lwCache[fn]
+	if !ok {
+		own := map[*ssa.BasicBlock]map[string]bool{}
+		for _, b := range fn.Blocks {
+			w := map[string]bool{}
+			for _, i2 := range b.Instrs {
+				a.instrWritesInto(i2, w)
+			}
+			own[b] = w
+		}
+		reach = map[*ssa.BasicBlock]map[string]bool{}
+		for _, b := range fn.Blocks {
+			w := map[string]bool{}
+			seen := map[*ssa.BasicBlock]bool{}
+			stack := []*ssa.BasicBlock{b}
+			for len(stack) > 0 {
+				n := stack[len(stack)-1]
+				stack = stack[:len(stack)-1]
+				if seen[n] {
+					continue
+				}
+				seen[n] = true
+				for k := range own[n] {
+					w[k] = true
+				}
+				stack = append(stack, n.Succs...)
+			}
+			reach[b] = w
+		}
+		a.lwCache[fn] = reach
+	}
+	out := map[string]bool{}
+	b := in.Block()
+	after := false
+	for _, i2 := range b.Instrs {
+		if after {
+			a.instrWritesInto(i2, out)
+		}
+		if i2 == in {
+			after = true
+		}
+	}
+	for _, sx := range b.Succs {
+		for k := range reach[sx] {
+			out[k] = true
+		}
+	}
+	return out
+}
+
+func (a *Analyzer) instrWritesInto(in ssa.Instruction, out map[string]bool) {
+	if ci, ok := in.(ssa.CallInstruction); ok {
+		if isLoggingCall(ci.Common()) {
+			return
+		}
+		for k := range a.callWrites(ci) {
+			out[k] = true
+		}
+		return
+	}
+	a.instrOwnWrites(in, out)
 }
 
 func constTerm(k *ssa.Const) *Term {
